@@ -19,7 +19,11 @@ Q1 == <<  << <<"pfront", 1>>, <<"pfront", 2>>, <<"remove", 1>> >>,  << <<"drain"
 Q2 == <<  << <<"pfront", 1>>, <<"remove", 1>> >>,  << <<"drain", 1>>, <<"pop", 1>> >>,  << <<"drain", 2>>, <<"pop", 2>>, <<"unlatch", 0>>, <<"pfront", 2>> >>  >>
 Q3 == <<  << <<"pfront", 1>>, <<"pfront", 2>>, <<"remove", 2>> >>,  << <<"drain", 1>>, <<"pop", 1>>, <<"pop", 1>>, <<"unlatch", 0>> >>,  << <<"pfront", 3>>, <<"islatched", 0>>, <<"remove", 3>> >>  >>
 Q4 == <<  << <<"pfront", 1>>, <<"remove", 1>>, <<"pfront", 2>>, <<"remove", 2>> >>,  << <<"drain", 1>>, <<"pop", 1>>, <<"pop", 1>> >>,  << <<"unlatch", 0>>, <<"islatched", 0>>, <<"drain", 2>>, <<"pop", 2>> >>  >>
+\* 7: two concurrent pushers and a popper (the window of the tail hint)
+P7 == <<  << <<"push", 1>> >>,  << <<"push", 2>> >>, << <<"pop", 0>>, <<"push", 3>> >>  >>
+HintSet == {P7}
+HintOn == TRUE
 Small == {P1, P2, P4, Q2}
-All == {P1, P2, P3, P4, P5, P6, Q1, Q2, Q3, Q4}
+All == {P1, P2, P3, P4, P5, P6, P7, Q1, Q2, Q3, Q4}
 KillSet == {P2}
 ====
